@@ -189,6 +189,16 @@ func TestVerifC16Blacklist(t *testing.T) {
 					r.n.Connect(X.ID(), me)
 				}
 				vSettle(100 * time.Millisecond) // identify done, queue created, NewStream sleeping
+				if c.Chance(0.6) {
+					// X does not wait for the node's stream: it announces and GRAFTs on its own (the router admits a peer it has
+					// no outbound stream to yet)
+					if _, err := X.Open(me); err == nil {
+						X.Send(me, vSubRPC(true, "t"))
+						X.Send(me, vGraftRPC("t"))
+						vSettle(20 * time.Millisecond)
+						note("X subscribed and grafted on its own stream while the node's stream is being opened")
+					}
+				}
 			case "connected", "in_mesh", "in_validation", "in_validation_queue", "disconnected":
 				if !connectX() {
 					c.Inconclusive("attach X")
